@@ -863,6 +863,24 @@ func (s *SpecValidator) checkUniqueParams(path, method string, op *spec.Operatio
 			}
 		}
 	}
+
+	// the parameters shared at the path item level must be unique among themselves too
+	// (an operation may override one of them: that is no duplicate)
+	if paths := s.spec.Spec().Paths; paths != nil {
+		shared := make(map[string]struct{})
+		for _, ppr := range paths.Paths[path].Parameters {
+			pr, red := paramHelp.resolveParam(path, method, op.ID, &ppr, s) //#nosec
+			res.Merge(red)
+
+			if pr != nil && pr.Name != "" {
+				key := fmt.Sprintf("%s#%s", pr.In, pr.Name)
+				if _, ok := shared[key]; ok {
+					res.AddErrors(duplicateParamNameMsg(pr.In, pr.Name, op.ID))
+				}
+				shared[key] = struct{}{}
+			}
+		}
+	}
 	return res
 }
 
